@@ -235,7 +235,9 @@ theorem stokesI_nonneg (ha : 0 ≤ a) (hphys : b ^ 2 + c ^ 2 + d ^ 2 ≤ a ^ 2) 
 noncomputable def dop (s : S4 ℝ) : ℝ := Real.sqrt (s.q ^ 2 + s.u ^ 2 + s.v ^ 2) / s.i
 
 /-- `degree_of_polarization` is consistent with `stokes_vector` (both are functions of the same four
-numbers — `stokes_vector_eq_*`), and for a physical input Stokes vector it is at most one. -/
+numbers — `stokes_vector_eq_*`; the first conjunct is only that rewrite, as the audit notes), and for a physical input
+Stokes vector it is at most one.  `dop` is a specification function; what the *code* computes is tied in section 8
+(`S4.dopSq` run by op `degrees`, `model_degrees_sqrt : √dopSq = dop`, `model_dopSq_tensor_le_one`). -/
 theorem dop_consistent_tensor (ha : 0 ≤ a) (hphys : b ^ 2 + c ^ 2 + d ^ 2 ≤ a ^ 2)
     (hI : 0 < stokesI xr xi yr yi zr zi wr wi a b c d) :
     dop ⟨svI xr xi yr yi zr zi wr wi a b c d, svQ xr xi yr yi zr zi wr wi a b c d,
@@ -496,5 +498,356 @@ theorem gen_polarizer_eq_model (h : c ^ 2 + s ^ 2 = 1) :
 example : (3 / 5 : ℝ) ^ 2 + (4 / 5) ^ 2 = 1 := by norm_num
 
 end model
+
+/-! ## 7. Round 4: unitary elements and partially polarised light; port 2 of the beam splitter -/
+
+section unitaryTensor
+variable (xr xi yr yi zr zi wr wi : ℝ)
+
+/-- `Jᴴ J = 1` for `J = [[x, y], [z, w]]` as four real polynomial equations (decidable over `ℚ`). -/
+def IsUnitary8 (xr xi yr yi zr zi wr wi : ℝ) : Prop :=
+  xr * xr + xi * xi + zr * zr + zi * zi = 1 ∧ yr * yr + yi * yi + wr * wr + wi * wi = 1 ∧
+  xr * yr + xi * yi + zr * wr + zi * wi = 0 ∧ xr * yi - xi * yr + zr * wi - zi * wr = 0
+
+/-- First row of the generated Mueller matrix of a unitary Jones matrix is `(1, 0, 0, 0)`. -/
+theorem unitary_mueller_first_row (h : IsUnitary8 xr xi yr yi zr zi wr wi) :
+    genMueller xr xi yr yi zr zi wr wi 0 0 = 1 ∧ genMueller xr xi yr yi zr zi wr wi 0 1 = 0 ∧
+    genMueller xr xi yr yi zr zi wr wi 0 2 = 0 ∧ genMueller xr xi yr yi zr zi wr wi 0 3 = 0 := by
+  obtain ⟨h1, h2, h3, h4⟩ := h
+  refine ⟨?_, ?_, ?_, ?_⟩ <;> gen_unfold
+  · linear_combination (1 / 2) * h1 + (1 / 2) * h2
+  · linear_combination (1 / 2) * h1 - (1 / 2) * h2
+  · linear_combination h3
+  · linear_combination -h4
+
+/-- … hence a unitary Jones element conserves the reported intensity of *every* Jones-matrix (partially
+polarised) wavefront, whatever its input Stokes vector. -/
+theorem unitary_conserves_I_tensor (h : IsUnitary8 xr xi yr yi zr zi wr wi) (e : J2 ℝ) (s : S4 ℝ) :
+    (jonesStokes (mkJ xr xi yr yi zr zi wr wi * e) s).i = (jonesStokes e s).i := by
+  obtain ⟨r0, r1, r2, r3⟩ := unitary_mueller_first_row xr xi yr yi zr zi wr wi h
+  rw [mueller_after_element_tensor]
+  simp only [mulVec]
+  rw [r0, r1, r2, r3]; ring
+
+/-- `IsUnitary8` is satisfiable by a non-trivial matrix (`[[i, 0], [0, (3+4i)/5]]`). -/
+example : IsUnitary8 0 1 0 0 0 0 (3/5) (4/5) := by
+  unfold IsUnitary8; norm_num
+end unitaryTensor
+
+/-- The complex form of `Jᴴ J = 1` (as proved for the generated retarder matrix) gives the real form. -/
+theorem unitary8_of_complex (j11 j12 j21 j22 : ℂ)
+    (h11 : (starRingEnd ℂ) j11 * j11 + (starRingEnd ℂ) j21 * j21 = 1)
+    (h12 : (starRingEnd ℂ) j11 * j12 + (starRingEnd ℂ) j21 * j22 = 0)
+    (h22 : (starRingEnd ℂ) j12 * j12 + (starRingEnd ℂ) j22 * j22 = 1) :
+    IsUnitary8 j11.re j11.im j12.re j12.im j21.re j21.im j22.re j22.im := by
+  have a := congrArg Complex.re h11
+  have b := congrArg Complex.re h22
+  have c := congrArg Complex.re h12
+  have d := congrArg Complex.im h12
+  simp only [Complex.add_re, Complex.mul_re, Complex.conj_re, Complex.conj_im, Complex.one_re, Complex.zero_re,
+    Complex.add_im, Complex.mul_im, Complex.zero_im] at a b c d
+  refine ⟨by linarith, by linarith, by linarith, by linarith⟩
+
+section retarderTensor
+open Complex
+variable (t p x : ℂ)
+
+/-- **Audit R4.** The Mueller matrix (generated `jones_to_mueller`) of the matrix `PhaseRetarder.forward` applies
+(generated `ret*`) has first row `(1, 0, 0, 0)`: `I` is conserved for every Stokes vector. -/
+theorem retarder_mueller_first_row (ht0 : t ≠ 0) (hp0 : p ≠ 0) (hx0 : x ≠ 0)
+    (ht : (starRingEnd ℂ) t = t⁻¹) (hp : (starRingEnd ℂ) p = p⁻¹) (hx : (starRingEnd ℂ) x = x⁻¹) (k : Nat) (hk : k < 4) :
+    genMueller (ret11 t t⁻¹ p p⁻¹ x x⁻¹).re (ret11 t t⁻¹ p p⁻¹ x x⁻¹).im (ret12 t t⁻¹ p p⁻¹ x x⁻¹).re (ret12 t t⁻¹ p p⁻¹ x x⁻¹).im
+      (ret21 t t⁻¹ p p⁻¹ x x⁻¹).re (ret21 t t⁻¹ p p⁻¹ x x⁻¹).im (ret22 t t⁻¹ p p⁻¹ x x⁻¹).re (ret22 t t⁻¹ p p⁻¹ x x⁻¹).im 0 k
+      = if k = 0 then 1 else 0 := by
+  obtain ⟨h11, h12, h21, h22⟩ := retarder_unitary t p x ht0 hp0 hx0 ht hp hx
+  obtain ⟨r0, r1, r2, r3⟩ := unitary_mueller_first_row _ _ _ _ _ _ _ _ (unitary8_of_complex _ _ _ _ h11 h12 h22)
+  interval_cases k <;> simp [r0, r1, r2, r3]
+
+/-- Ideal retarders conserve `I` for Jones-matrix wavefronts (C07's tensor clause for retarders). -/
+theorem retarder_conserves_I_tensor (ht0 : t ≠ 0) (hp0 : p ≠ 0) (hx0 : x ≠ 0)
+    (ht : (starRingEnd ℂ) t = t⁻¹) (hp : (starRingEnd ℂ) p = p⁻¹) (hx : (starRingEnd ℂ) x = x⁻¹) (e : J2 ℝ) (s : S4 ℝ) :
+    (jonesStokes (mkJ (ret11 t t⁻¹ p p⁻¹ x x⁻¹).re (ret11 t t⁻¹ p p⁻¹ x x⁻¹).im (ret12 t t⁻¹ p p⁻¹ x x⁻¹).re (ret12 t t⁻¹ p p⁻¹ x x⁻¹).im
+      (ret21 t t⁻¹ p p⁻¹ x x⁻¹).re (ret21 t t⁻¹ p p⁻¹ x x⁻¹).im (ret22 t t⁻¹ p p⁻¹ x x⁻¹).re (ret22 t t⁻¹ p p⁻¹ x x⁻¹).im * e) s).i
+      = (jonesStokes e s).i := by
+  obtain ⟨h11, h12, h21, h22⟩ := retarder_unitary t p x ht0 hp0 hx0 ht hp hx
+  exact unitary_conserves_I_tensor _ _ _ _ _ _ _ _ (unitary8_of_complex _ _ _ _ h11 h12 h22) e s
+
+/-- `backward ∘ forward = id` on Jones-matrix wavefronts (matrix product with any 2×2 complex field). -/
+theorem retarder_backward_forward_tensor (ht : t ≠ 0) (hp : p ≠ 0) (hx : x ≠ 0) (e11 e12 e21 e22 : ℂ) :
+    let f11 := ret11 t t⁻¹ p p⁻¹ x x⁻¹ * e11 + ret12 t t⁻¹ p p⁻¹ x x⁻¹ * e21
+    let f12 := ret11 t t⁻¹ p p⁻¹ x x⁻¹ * e12 + ret12 t t⁻¹ p p⁻¹ x x⁻¹ * e22
+    let f21 := ret21 t t⁻¹ p p⁻¹ x x⁻¹ * e11 + ret22 t t⁻¹ p p⁻¹ x x⁻¹ * e21
+    let f22 := ret21 t t⁻¹ p p⁻¹ x x⁻¹ * e12 + ret22 t t⁻¹ p p⁻¹ x x⁻¹ * e22
+    retB11 t t⁻¹ p p⁻¹ x x⁻¹ * f11 + retB12 t t⁻¹ p p⁻¹ x x⁻¹ * f21 = e11 ∧
+    retB11 t t⁻¹ p p⁻¹ x x⁻¹ * f12 + retB12 t t⁻¹ p p⁻¹ x x⁻¹ * f22 = e12 ∧
+    retB21 t t⁻¹ p p⁻¹ x x⁻¹ * f11 + retB22 t t⁻¹ p p⁻¹ x x⁻¹ * f21 = e21 ∧
+    retB21 t t⁻¹ p p⁻¹ x x⁻¹ * f12 + retB22 t t⁻¹ p p⁻¹ x x⁻¹ * f22 = e22 := by
+  intro f11 f12 f21 f22
+  obtain ⟨i11, i12, i21, i22⟩ := retarder_backward_inverse t p x ht hp hx
+  simp only [f11, f12, f21, f22]
+  refine ⟨?_, ?_, ?_, ?_⟩
+  · linear_combination e11 * i11 + e21 * i12
+  · linear_combination e12 * i11 + e22 * i12
+  · linear_combination e11 * i21 + e21 * i22
+  · linear_combination e12 * i21 + e22 * i22
+end retarderTensor
+
+section model2
+variable (c s : ℝ)
+/-- Port 2 of the linear polarising beam splitter applies `polarizer (-s) c` (the polariser at θ+π/2). -/
+theorem pbs2_eq_model (h : c ^ 2 + s ^ 2 = 1) :
+    let t : ℂ := ⟨c, s⟩; let ti : ℂ := ⟨c, -s⟩
+    pbs211 t ti = (polarizer (-s) c).a11.toComplex ∧ pbs212 t ti = (polarizer (-s) c).a12.toComplex ∧
+    pbs221 t ti = (polarizer (-s) c).a21.toComplex ∧ pbs222 t ti = (polarizer (-s) c).a22.toComplex := by
+  intro t ti
+  have hs : s ^ 2 = 1 - c ^ 2 := by linarith
+  refine ⟨?_, ?_, ?_, ?_⟩ <;>
+  (apply Complex.ext <;>
+   (ret_unfold
+    simp only [t, ti, Cx.toComplex]
+    jones_expand
+    simp [pow_two]
+    ring_nf
+    try (simp only [hs]; ring)))
+end model2
+/-! ## 8. Round 4: the reported degrees and angle of polarisation, on the executable model
+
+`S4.dopSq`, `S4.dolpSq`, `S4.qn`, `S4.un`, `S4.vn` of `Model/Jones.lean` are run by driver op `degrees` on the Stokes vector
+of the model (`jonesStokes` / `vecStokes` / `scalarStokes`) and compared by the harness with the code's
+`degree_of_polarization²`, `degree_of_linear_polarization²`, `degree_of_circular_polarization`,
+`ellipticity·(1 + dolp)` and `(cos, sin)(2·angle_of_linear_polarization)·dolp`; `model_degrees_sqrt`,
+`model_ellipticity` and `model_aolp` are the bridges from the code's square-root / atan2 formulas to these. -/
+section degrees
+
+/-- `dop² = dolp² + docp²`. -/
+theorem model_dopSq_split (s : S4 ℝ) : s.dopSq = s.dolpSq + s.vn ^ 2 := by
+  unfold S4.dopSq S4.dolpSq S4.vn
+  rw [add_div, div_pow]; ring
+
+/-- `dolp² = (Q/I)² + (U/I)²`. -/
+theorem model_dolpSq_split (s : S4 ℝ) : s.dolpSq = s.qn ^ 2 + s.un ^ 2 := by
+  unfold S4.dolpSq S4.qn S4.un
+  rw [add_div, div_pow, div_pow]; ring
+
+/-- Bridge to the specification function `dop` and to the code's square-root formulas (`0 < I`). -/
+theorem model_degrees_sqrt (s : S4 ℝ) (hI : 0 < s.i) :
+    Real.sqrt s.dopSq = dop s ∧ Real.sqrt s.dolpSq = Real.sqrt (s.q ^ 2 + s.u ^ 2) / s.i := by
+  have h2 : s.i * s.i = s.i ^ 2 := by ring
+  constructor
+  · unfold S4.dopSq dop
+    rw [h2, Real.sqrt_div' _ (sq_nonneg _), Real.sqrt_sq hI.le]; congr 2; ring
+  · unfold S4.dolpSq
+    rw [h2, Real.sqrt_div' _ (sq_nonneg _), Real.sqrt_sq hI.le]; congr 2; ring
+
+/-- `ellipticity = V/(I+√(Q²+U²))` in terms of the model outputs: `ε · (1 + dolp) = V/I`. -/
+theorem model_ellipticity (s : S4 ℝ) (hI : 0 < s.i) :
+    s.v / (s.i + Real.sqrt (s.q ^ 2 + s.u ^ 2)) * (1 + Real.sqrt s.dolpSq) = s.vn := by
+  rw [(model_degrees_sqrt s hI).2]
+  unfold S4.vn
+  have hr := Real.sqrt_nonneg (s.q ^ 2 + s.u ^ 2)
+  have : s.i + Real.sqrt (s.q ^ 2 + s.u ^ 2) ≠ 0 := by positivity
+  field_simp
+
+/-- `angle_of_linear_polarization = ½ atan2(U, Q)`: any angle `α` with `(cos 2α, sin 2α)·√(Q²+U²) = (Q, U)` satisfies
+`cos 2α · dolp = Q/I`, `sin 2α · dolp = U/I` (what the harness compares). -/
+theorem model_aolp (s : S4 ℝ) (hI : 0 < s.i) (c2 s2 : ℝ) (hc : c2 * Real.sqrt (s.q ^ 2 + s.u ^ 2) = s.q)
+    (hs : s2 * Real.sqrt (s.q ^ 2 + s.u ^ 2) = s.u) :
+    c2 * Real.sqrt s.dolpSq = s.qn ∧ s2 * Real.sqrt s.dolpSq = s.un := by
+  rw [(model_degrees_sqrt s hI).2]
+  unfold S4.qn S4.un
+  constructor
+  · rw [← mul_div_assoc, hc]
+  · rw [← mul_div_assoc, hs]
+
+/-- Minkowski identity for the model: `I² − Q² − U² − V² = |det J|²·(a² − b² − c² − d²)`. -/
+theorem model_minkowski (e : J2 ℝ) (s : S4 ℝ) :
+    (jonesStokes e s).i ^ 2 - (jonesStokes e s).q ^ 2 - (jonesStokes e s).u ^ 2 - (jonesStokes e s).v ^ 2
+      = e.det.normSq * (s.i ^ 2 - s.q ^ 2 - s.u ^ 2 - s.v ^ 2) := by
+  obtain ⟨⟨xr, xi⟩, ⟨yr, yi⟩, ⟨zr, zi⟩, ⟨wr, wi⟩⟩ := e
+  obtain ⟨a, b, c, d⟩ := s
+  have := stokes_minkowski xr xi yr yi zr zi wr wi a b c d
+  rw [stokesI_eq, stokesQ_eq, stokesU_eq, stokesV_eq] at this
+  exact this
+
+/-- Partially polarised light: the reported degree of polarisation is at most one for a physical input Stokes vector. -/
+theorem model_dopSq_tensor_le_one (e : J2 ℝ) (s : S4 ℝ) (hphys : s.q ^ 2 + s.u ^ 2 + s.v ^ 2 ≤ s.i ^ 2)
+    (hI : 0 < (jonesStokes e s).i) : (jonesStokes e s).dopSq ≤ 1 := by
+  have hm := model_minkowski e s
+  have hdet : 0 ≤ e.det.normSq := by
+    unfold Cx.normSq; nlinarith [mul_self_nonneg e.det.re, mul_self_nonneg e.det.im]
+  have h0 : 0 ≤ e.det.normSq * (s.i ^ 2 - s.q ^ 2 - s.u ^ 2 - s.v ^ 2) := mul_nonneg hdet (by linarith)
+  unfold S4.dopSq
+  rw [div_le_one (by positivity)]
+  nlinarith
+
+/-- Jones-vector wavefronts are fully polarised. -/
+theorem model_dopSq_vector_eq_one (e : V2 ℝ) (hI : 0 < (vecStokes e).i) : (vecStokes e).dopSq = 1 := by
+  obtain ⟨⟨pr, pi⟩, ⟨qr, qi⟩⟩ := e
+  unfold S4.dopSq
+  rw [div_eq_one_iff_eq (by positivity)]
+  jones_expand; ring
+
+/-- Scalar wavefronts are reported unpolarised. -/
+theorem model_dopSq_scalar_eq_zero (e : Cx ℝ) : (scalarStokes e).dopSq = 0 ∧ (scalarStokes e).dolpSq = 0 ∧ (scalarStokes e).vn = 0 := by
+  simp [S4.dopSq, S4.dolpSq, S4.vn, scalarStokes]
+
+/-- Light linearly polarised at angle ψ (`A·(cos ψ, sin ψ)`, `A ≠ 0` complex): `(Q/I, U/I, V/I) = (cos 2ψ, sin 2ψ, 0)`, `dolp = 1`. -/
+theorem model_aolp_linear (A : Cx ℝ) (cs sn : ℝ) (h : cs ^ 2 + sn ^ 2 = 1) (hA : 0 < A.normSq) :
+    (vecStokes ⟨Cx.smul cs A, Cx.smul sn A⟩).qn = cs ^ 2 - sn ^ 2 ∧
+    (vecStokes ⟨Cx.smul cs A, Cx.smul sn A⟩).un = 2 * cs * sn ∧
+    (vecStokes ⟨Cx.smul cs A, Cx.smul sn A⟩).vn = 0 ∧
+    (vecStokes ⟨Cx.smul cs A, Cx.smul sn A⟩).dolpSq = 1 := by
+  obtain ⟨ar, ai⟩ := A
+  simp only [Cx.normSq] at hA
+  have hi : (vecStokes ⟨Cx.smul cs ⟨ar, ai⟩, Cx.smul sn ⟨ar, ai⟩⟩).i = ar * ar + ai * ai := by
+    jones_expand; linear_combination (ar * ar + ai * ai) * h
+  have hq : (vecStokes ⟨Cx.smul cs ⟨ar, ai⟩, Cx.smul sn ⟨ar, ai⟩⟩).q = (ar * ar + ai * ai) * (cs ^ 2 - sn ^ 2) := by
+    jones_expand; ring
+  have hu : (vecStokes ⟨Cx.smul cs ⟨ar, ai⟩, Cx.smul sn ⟨ar, ai⟩⟩).u = (ar * ar + ai * ai) * (2 * cs * sn) := by
+    jones_expand; ring
+  have hv : (vecStokes ⟨Cx.smul cs ⟨ar, ai⟩, Cx.smul sn ⟨ar, ai⟩⟩).v = 0 := by
+    jones_expand; ring
+  have hne : ar * ar + ai * ai ≠ 0 := hA.ne'
+  refine ⟨?_, ?_, ?_, ?_⟩
+  · unfold S4.qn; rw [hi, hq]; exact mul_div_cancel_left₀ _ hne
+  · unfold S4.un; rw [hi, hu]; exact mul_div_cancel_left₀ _ hne
+  · unfold S4.vn; rw [hv]; simp
+  · unfold S4.dolpSq; rw [hi, hq, hu, div_eq_one_iff_eq (by positivity)]
+    have : (cs ^ 2 - sn ^ 2) ^ 2 + (2 * cs * sn) ^ 2 = 1 := by
+      have : (cs ^ 2 - sn ^ 2) ^ 2 + (2 * cs * sn) ^ 2 = (cs ^ 2 + sn ^ 2) ^ 2 := by ring
+      rw [this, h]; ring
+    linear_combination (ar * ar + ai * ai) ^ 2 * this
+
+example : (3 / 5 : ℝ) ^ 2 + (4 / 5) ^ 2 = 1 ∧ 0 < (⟨1, 2⟩ : Cx ℝ).normSq := by
+  constructor <;> norm_num [Cx.normSq]
+
+end degrees
+
+/-! ## 9. Round 4: every retarder class, through the executable model
+
+The subclasses map their parameters in Python; the harness sends the atoms each class implies to driver op `retarder` and compares
+with the class's `jones_matrix`, so the theorems below (about `Model.retarder`) speak about all six classes. -/
+section modelRetarder
+variable (c s pc ps xc xs : ℝ)
+
+/-- `Jᴴ J = 1` for the executable retarder with atoms on the unit circle. -/
+theorem model_retarder_unitary (h : c ^ 2 + s ^ 2 = 1) (hp : pc ^ 2 + ps ^ 2 = 1) (hx : xc ^ 2 + xs ^ 2 = 1) :
+    IsUnitary8 (retarder c s ⟨pc, ps⟩ ⟨xc, xs⟩).a11.re (retarder c s ⟨pc, ps⟩ ⟨xc, xs⟩).a11.im
+      (retarder c s ⟨pc, ps⟩ ⟨xc, xs⟩).a12.re (retarder c s ⟨pc, ps⟩ ⟨xc, xs⟩).a12.im
+      (retarder c s ⟨pc, ps⟩ ⟨xc, xs⟩).a21.re (retarder c s ⟨pc, ps⟩ ⟨xc, xs⟩).a21.im
+      (retarder c s ⟨pc, ps⟩ ⟨xc, xs⟩).a22.re (retarder c s ⟨pc, ps⟩ ⟨xc, xs⟩).a22.im := by
+  obtain ⟨t0, ti, tc⟩ := unit_circle c s h
+  obtain ⟨p0, pi, pcj⟩ := unit_circle pc ps hp
+  obtain ⟨x0, xi, xcj⟩ := unit_circle xc xs hx
+  have hgen := gen_retarder_eq_model c s pc ps xc xs h
+  simp only at hgen
+  rw [← ti, ← pi, ← xi] at hgen
+  obtain ⟨g11, g12, g21, g22⟩ := hgen
+  obtain ⟨h11, h12, h21, h22⟩ := retarder_unitary (⟨c, s⟩ : ℂ) ⟨pc, ps⟩ ⟨xc, xs⟩ t0 p0 x0 tc pcj xcj
+  have key := unitary8_of_complex _ _ _ _ h11 h12 h22
+  rw [g11, g12, g21, g22] at key
+  exact key
+
+/-- **The executable retarder** (`Model.retarder`, driver op `retarder`, compared with `jones_matrix` of *every* retarder class
+— `PhaseRetarder`, `LinearRetarder` (χ = 0), `CircularRetarder` (θ = π/4, χ = π/2), `QuarterWavePlate` (φ/2 = π/4),
+`HalfWavePlate` and `GeometricPhaseElement` (φ/2 = π/2) — at the atoms the class implies) conserves the intensity of every
+Jones-matrix (partially polarised) wavefront, for atoms on the unit circle. -/
+theorem model_retarder_conserves_I_tensor (h : c ^ 2 + s ^ 2 = 1) (hp : pc ^ 2 + ps ^ 2 = 1) (hx : xc ^ 2 + xs ^ 2 = 1)
+    (e : J2 ℝ) (sv : S4 ℝ) :
+    (jonesStokes (retarder c s ⟨pc, ps⟩ ⟨xc, xs⟩ * e) sv).i = (jonesStokes e sv).i := by
+  obtain ⟨t0, ti, tc⟩ := unit_circle c s h
+  obtain ⟨p0, pi, pcj⟩ := unit_circle pc ps hp
+  obtain ⟨x0, xi, xcj⟩ := unit_circle xc xs hx
+  have hgen := gen_retarder_eq_model c s pc ps xc xs h
+  simp only at hgen
+  rw [← ti, ← pi, ← xi] at hgen
+  obtain ⟨g11, g12, g21, g22⟩ := hgen
+  have key := retarder_conserves_I_tensor (⟨c, s⟩ : ℂ) ⟨pc, ps⟩ ⟨xc, xs⟩ t0 p0 x0 tc pcj xcj e sv
+  rw [g11, g12, g21, g22] at key
+  exact key
+
+/-- The atoms implied by the subclasses lie on the unit circle (`√½` for quarter-wave retardance and for the circular retarder). -/
+example : (0 : ℝ) ^ 2 + 1 ^ 2 = 1 ∧ (1 : ℝ) ^ 2 + 0 ^ 2 = 1 ∧ Real.sqrt (1 / 2) ^ 2 + Real.sqrt (1 / 2) ^ 2 = 1 := by
+  refine ⟨by norm_num, by norm_num, ?_⟩
+  rw [Real.sq_sqrt (by norm_num)]; norm_num
+
+end modelRetarder
+
+/-- In the executable model `backward` (`Jᴴ·`, op `applyadj`) undoes `forward` (`J·`, op `apply`) for every unitary `J`. -/
+theorem model_unitary_backward_forward (j : J2 ℝ)
+    (h : IsUnitary8 j.a11.re j.a11.im j.a12.re j.a12.im j.a21.re j.a21.im j.a22.re j.a22.im) (e : V2 ℝ) :
+    j.adj.apply (j.apply e) = e := by
+  obtain ⟨⟨xr, xi⟩, ⟨yr, yi⟩, ⟨zr, zi⟩, ⟨wr, wi⟩⟩ := j
+  obtain ⟨⟨pr, pi⟩, ⟨qr, qi⟩⟩ := e
+  obtain ⟨h1, h2, h3, h4⟩ := h
+  simp only at h1 h2 h3 h4
+  have e1 : ((J2.adj ⟨⟨xr, xi⟩, ⟨yr, yi⟩, ⟨zr, zi⟩, ⟨wr, wi⟩⟩).apply ((⟨⟨xr, xi⟩, ⟨yr, yi⟩, ⟨zr, zi⟩, ⟨wr, wi⟩⟩ : J2 ℝ).apply ⟨⟨pr, pi⟩, ⟨qr, qi⟩⟩)).x.re = pr := by
+    jones_model_expand; linear_combination pr * h1 + qr * h3 - qi * h4
+  have e2 : ((J2.adj ⟨⟨xr, xi⟩, ⟨yr, yi⟩, ⟨zr, zi⟩, ⟨wr, wi⟩⟩).apply ((⟨⟨xr, xi⟩, ⟨yr, yi⟩, ⟨zr, zi⟩, ⟨wr, wi⟩⟩ : J2 ℝ).apply ⟨⟨pr, pi⟩, ⟨qr, qi⟩⟩)).x.im = pi := by
+    jones_model_expand; linear_combination pi * h1 + qi * h3 + qr * h4
+  have e3 : ((J2.adj ⟨⟨xr, xi⟩, ⟨yr, yi⟩, ⟨zr, zi⟩, ⟨wr, wi⟩⟩).apply ((⟨⟨xr, xi⟩, ⟨yr, yi⟩, ⟨zr, zi⟩, ⟨wr, wi⟩⟩ : J2 ℝ).apply ⟨⟨pr, pi⟩, ⟨qr, qi⟩⟩)).y.re = qr := by
+    jones_model_expand; linear_combination pr * h3 + pi * h4 + qr * h2
+  have e4 : ((J2.adj ⟨⟨xr, xi⟩, ⟨yr, yi⟩, ⟨zr, zi⟩, ⟨wr, wi⟩⟩).apply ((⟨⟨xr, xi⟩, ⟨yr, yi⟩, ⟨zr, zi⟩, ⟨wr, wi⟩⟩ : J2 ℝ).apply ⟨⟨pr, pi⟩, ⟨qr, qi⟩⟩)).y.im = qi := by
+    jones_model_expand; linear_combination pi * h3 - pr * h4 + qi * h2
+  generalize ((J2.adj ⟨⟨xr, xi⟩, ⟨yr, yi⟩, ⟨zr, zi⟩, ⟨wr, wi⟩⟩).apply ((⟨⟨xr, xi⟩, ⟨yr, yi⟩, ⟨zr, zi⟩, ⟨wr, wi⟩⟩ : J2 ℝ).apply ⟨⟨pr, pi⟩, ⟨qr, qi⟩⟩)) = r at e1 e2 e3 e4
+  obtain ⟨⟨a, b⟩, ⟨c, d⟩⟩ := r
+  simp only at e1 e2 e3 e4
+  rw [e1, e2, e3, e4]
+
+
+/-! ## 10. Round 4: both beam splitters on the executable model, partially polarised light included -/
+section splitter
+variable (c s cq sq pc ps xc xs : ℝ)
+
+/-- **Both beam splitters, partially polarised light** (audit: "CBS for tensors: none"): the executable ports
+`P(θ)·R·E`, `P(θ+π/2)·R·E` (`Model.splitterPorts`, driver op `ports`; `R` the identity for the linear splitter, the
+quarter-wave plate at 45° for the circular one) carry together exactly the input intensity, for every Jones-matrix
+field and every input Stokes vector. -/
+theorem model_splitter_ports_sum_tensor (h : c ^ 2 + s ^ 2 = 1) (hq : cq ^ 2 + sq ^ 2 = 1) (hp : pc ^ 2 + ps ^ 2 = 1)
+    (hx : xc ^ 2 + xs ^ 2 = 1) (e : J2 ℝ) (sv : S4 ℝ) :
+    (jonesStokes (splitterPorts c s (retarder cq sq ⟨pc, ps⟩ ⟨xc, xs⟩) e).1 sv).i
+      + (jonesStokes (splitterPorts c s (retarder cq sq ⟨pc, ps⟩ ⟨xc, xs⟩) e).2 sv).i = (jonesStokes e sv).i := by
+  unfold splitterPorts
+  simp only
+  rw [polarizer_ports_split c s h, model_retarder_conserves_I_tensor cq sq pc ps xc xs hq hp hx]
+
+/-- A unitary matrix conserves the intensity of a Jones vector, in the executable model. -/
+theorem model_unitary_conserves_I_vector (j : J2 ℝ)
+    (h : IsUnitary8 j.a11.re j.a11.im j.a12.re j.a12.im j.a21.re j.a21.im j.a22.re j.a22.im) (e : V2 ℝ) :
+    (vecStokes (j.apply e)).i = (vecStokes e).i := by
+  obtain ⟨⟨xr, xi⟩, ⟨yr, yi⟩, ⟨zr, zi⟩, ⟨wr, wi⟩⟩ := j
+  obtain ⟨⟨pr, pi⟩, ⟨qr, qi⟩⟩ := e
+  obtain ⟨h1, h2, h3, h4⟩ := h
+  simp only at h1 h2 h3 h4
+  jones_model_expand
+  linear_combination (pr * pr + pi * pi) * h1 + (qr * qr + qi * qi) * h2 + 2 * (pr * qr + pi * qi) * h3
+    - 2 * (pr * qi - pi * qr) * h4
+
+/-- The complementary projectors split the intensity of a Jones vector. -/
+theorem model_polarizer_ports_split_vector (h : c ^ 2 + s ^ 2 = 1) (e : V2 ℝ) :
+    (vecStokes ((polarizer c s).apply e)).i + (vecStokes ((polarizer (-s) c).apply e)).i = (vecStokes e).i := by
+  obtain ⟨⟨pr, pi⟩, ⟨qr, qi⟩⟩ := e
+  have e1 : (vecStokes ((polarizer c s).apply ⟨⟨pr, pi⟩, ⟨qr, qi⟩⟩)).i + (vecStokes ((polarizer (-s) c).apply ⟨⟨pr, pi⟩, ⟨qr, qi⟩⟩)).i
+      = (c ^ 2 + s ^ 2) ^ 2 * (vecStokes (⟨⟨pr, pi⟩, ⟨qr, qi⟩⟩ : V2 ℝ)).i := by
+    jones_model_expand; ring
+  rw [e1, h]; ring
+
+/-- … and the two ports of either beam splitter add up to the input intensity for Jones-vector wavefronts. -/
+theorem model_splitter_ports_sum_vector (h : c ^ 2 + s ^ 2 = 1) (hq : cq ^ 2 + sq ^ 2 = 1) (hp : pc ^ 2 + ps ^ 2 = 1)
+    (hx : xc ^ 2 + xs ^ 2 = 1) (e : V2 ℝ) :
+    (vecStokes (splitterPortsV c s (retarder cq sq ⟨pc, ps⟩ ⟨xc, xs⟩) e).1).i
+      + (vecStokes (splitterPortsV c s (retarder cq sq ⟨pc, ps⟩ ⟨xc, xs⟩) e).2).i = (vecStokes e).i := by
+  unfold splitterPortsV
+  simp only
+  rw [model_polarizer_ports_split_vector c s h,
+    model_unitary_conserves_I_vector _ (model_retarder_unitary cq sq pc ps xc xs hq hp hx)]
+
+/-- The atoms of the two splitters satisfy the hypotheses: linear (`R = 1`: `p = x = 1`, any θ) and circular
+(`θ = 0`, quarter-wave plate at 45°: `cq = sq = √½`, `p = (√½, √½)`, `x = 1`). -/
+example : (3 / 5 : ℝ) ^ 2 + (4 / 5) ^ 2 = 1 ∧ (1 : ℝ) ^ 2 + 0 ^ 2 = 1 ∧ Real.sqrt (1 / 2) ^ 2 + Real.sqrt (1 / 2) ^ 2 = 1 := by
+  refine ⟨by norm_num, by norm_num, ?_⟩
+  rw [Real.sq_sqrt (by norm_num)]; norm_num
+
+end splitter
 
 end HcipyVerif.C08
